@@ -62,6 +62,45 @@ type c09Seq struct {
 	roles   []string
 	base    *gen.Change // instances of its minus side are planted
 	indep   *gen.Change
+	extra   []string // further expression plants (%s = an atom)
+}
+
+// c09SpecialSeq builds the fixed-shape sequences that need more than the chain generator offers.
+func c09SpecialSeq(g *gen.G, which int) *c09Seq {
+	mk := func(kind, schema string, meta []gen.MetaVar, guards []gen.Line, minus, plus string) *gen.Change {
+		return &gen.Change{Kind: kind, Schema: schema, Meta: meta, Guards: guards, Lines: []gen.Line{gen.L('-', minus), gen.L('+', plus)}}
+	}
+	x := []gen.MetaVar{{Name: "x", Kind: "expression"}}
+	y := []gen.MetaVar{{Name: "y", Kind: "expression"}}
+	switch which {
+	case 0:
+		// the same patch file named twice with another one in between that produces code the repeated one matches
+		ca := mk("expr", "c09-cycle-a", x, nil, "cycA(«x»)", "cycB(«x»)")
+		cb := mk("expr", "c09-cycle-b", y, nil, "cycC(«y»)", "cycA(«y», 1)")
+		ca2 := mk("expr", "c09-cycle-a", []gen.MetaVar{{Name: "x", Kind: "expression"}, {Name: "z", Kind: "expression"}}, nil, "cycA(«x», «z»)", "cycD(«z», «x»)")
+		if g.R.Intn(2) == 0 {
+			return &c09Seq{changes: []*gen.Change{ca2, cb, ca2}, roles: []string{"repeat-a", "feeder", "repeat-a"}, base: cb}
+		}
+		cb1 := mk("expr", "c09-cycle-b", y, nil, "cycC(«y»)", "cycA(«y»)")
+		return &c09Seq{changes: []*gen.Change{ca, cb1, ca}, roles: []string{"repeat-a", "feeder", "repeat-a"}, base: cb1, extra: []string{"cycA(%s)"}}
+	default:
+		// a later change is guarded by an import that only an earlier change adds (and by a package clause that only
+		// an earlier change makes true)
+		imp := func(prefix byte, path string) []gen.Line {
+			return []gen.Line{gen.L(prefix, `import "`+path+`"`), gen.L(' ', "")}
+		}
+		c1 := mk("expr", "c09-adds-import", x, imp('+', "example.com/newlog"), "oldlog(«x»)", "newlog.Warn(«x»)")
+		c2 := mk("expr", "c09-guarded-by-added-import", y, imp(' ', "example.com/newlog"), "newlog.Warn(«y»)", "newlog.Warning(«y», 1)")
+		seq := &c09Seq{changes: []*gen.Change{c1, c2}, roles: []string{"adds-import", "guarded-by-it"}, base: c1}
+		if g.R.Intn(2) == 0 {
+			c0 := mk("expr", "c09-renames-package", nil, []gen.Line{gen.L('-', "package p"), gen.L('+', "package renamed"), gen.L(' ', "")}, "pkgMarker", "pkgMarker2")
+			c3 := mk("expr", "c09-guarded-by-renamed-package", nil, []gen.Line{gen.L(' ', "package renamed"), gen.L(' ', "")}, "pkgMarker2", "pkgMarker3")
+			seq.changes = append([]*gen.Change{c0}, append(seq.changes, c3)...)
+			seq.roles = append([]string{"renames-package"}, append(seq.roles, "guarded-by-renamed-package")...)
+			seq.extra = append(seq.extra, "use(pkgMarker, %s)")
+		}
+		return seq
+	}
 }
 
 func genC09Seq(g *gen.G) *c09Seq {
@@ -245,6 +284,12 @@ func runC09(ctx *core.Ctx, idx int) *core.Result {
 	g := gen.NewG(r)
 	g.NoParen = true
 	seq := genC09Seq(g)
+	switch idx % 12 {
+	case 5:
+		seq = c09SpecialSeq(g, 0)
+	case 11:
+		seq = c09SpecialSeq(g, 1)
+	}
 	// files
 	nf := 3
 	var files, orig []string
@@ -262,6 +307,11 @@ func runC09(ctx *core.Ctx, idx int) *core.Result {
 				plants = append(plants, gen.Plant{Kind: "expr", Text: "u1(" + g.Atom() + ")"})
 			}
 		}
+		for _, e := range seq.extra {
+			for p := 0; p < 1+r.Intn(2); p++ {
+				plants = append(plants, gen.Plant{Kind: "expr", Text: fmt.Sprintf(e, g.Atom())})
+			}
+		}
 		files = append(files, fmt.Sprintf("f%d.go", f))
 		orig = append(orig, g.File(gen.FileOpts{Plants: plants}))
 	}
@@ -272,8 +322,19 @@ func runC09(ctx *core.Ctx, idx int) *core.Result {
 	combined := strings.Join(texts, "\n")
 	dir, _ := os.MkdirTemp(ctx.Tmp, "c09")
 	defer os.RemoveAll(dir)
+	// the same change object named several times is the same patch file named several times
+	pathOf := make([]int, len(texts))
+	for i := range seq.changes {
+		pathOf[i] = i
+		for j := 0; j < i; j++ {
+			if seq.changes[j] == seq.changes[i] {
+				pathOf[i] = j
+				break
+			}
+		}
+	}
 	for i, t := range texts {
-		os.WriteFile(filepath.Join(dir, fmt.Sprintf("c%d.patch", i)), []byte(t), 0o644)
+		os.WriteFile(filepath.Join(dir, fmt.Sprintf("c%d.patch", pathOf[i])), []byte(t), 0o644)
 	}
 	os.WriteFile(filepath.Join(dir, "all.patch"), []byte(combined), 0o644)
 
@@ -282,7 +343,7 @@ func runC09(ctx *core.Ctx, idx int) *core.Result {
 	chainFailed := make([]bool, nf)
 	for i := range texts {
 		before := readAll(dir, files)
-		cr := cliInPlace(ctx, dir, []string{"-p", fmt.Sprintf("c%d.patch", i)}, nil, files)
+		cr := cliInPlace(ctx, dir, []string{"-p", fmt.Sprintf("c%d.patch", pathOf[i])}, nil, files)
 		if cc := cr.CrashClass(); cc != "" {
 			res.Violate("C09/"+cc, string(cr.Stderr), map[string]string{"p.patch": combined, "in.go": orig[0]})
 			return res
@@ -303,11 +364,11 @@ func runC09(ctx *core.Ctx, idx int) *core.Result {
 	// deliveries of the combined sequence
 	var pArgs []string
 	for i := range texts {
-		pArgs = append(pArgs, "-p", fmt.Sprintf("c%d.patch", i))
+		pArgs = append(pArgs, "-p", fmt.Sprintf("c%d.patch", pathOf[i]))
 	}
 	var list strings.Builder
 	for i := range texts {
-		fmt.Fprintf(&list, "c%d.patch\n", i)
+		fmt.Fprintf(&list, "c%d.patch\n", pathOf[i])
 	}
 	os.WriteFile(filepath.Join(dir, "list.txt"), []byte(list.String()), 0o644)
 	half := len(texts) / 2
@@ -315,9 +376,9 @@ func runC09(ctx *core.Ctx, idx int) *core.Result {
 	var list2 strings.Builder
 	for i := range texts {
 		if i < half {
-			mixArgs = append(mixArgs, "-p", fmt.Sprintf("c%d.patch", i))
+			mixArgs = append(mixArgs, "-p", fmt.Sprintf("c%d.patch", pathOf[i]))
 		} else {
-			fmt.Fprintf(&list2, "\nc%d.patch\n", i)
+			fmt.Fprintf(&list2, "\nc%d.patch\n", pathOf[i])
 		}
 	}
 	os.WriteFile(filepath.Join(dir, "list2.txt"), []byte(list2.String()), 0o644)
